@@ -20,7 +20,11 @@ VERIF = os.path.dirname(os.path.dirname(os.path.abspath(__file__)))
 
 
 def sh(cmd, cwd=None, timeout=3600):
-    p = subprocess.run(cmd, shell=True, cwd=cwd, capture_output=True, text=True, timeout=timeout)
+    try:
+        p = subprocess.run('ulimit -v 8000000; ' + cmd if 'demo_' in cmd else cmd, shell=True, cwd=cwd,
+                           capture_output=True, text=True, timeout=300 if 'demo_' in cmd else timeout)
+    except subprocess.TimeoutExpired:
+        return 124, 'TIMEOUT'
     return p.returncode, p.stdout + p.stderr
 
 
